@@ -318,10 +318,12 @@ def e_rp_static(p):
 
 def e_crp(p):
     from pyunicorn.timeseries import CrossRecurrencePlot
-    x = arr((p["Lx"],), kind="sin")
-    y = arr((p["Ly"],), kind="ramp")
+    d = p.get("d")          # multi-dimensional series [time, component]
+    x = arr((p["Lx"],) + ((d,) if d else ()), kind="sin")
+    y = arr((p["Ly"],) + ((d,) if d else ()), kind="ramp")
     crp = CrossRecurrencePlot(x, y, metric=p.get("metric", "supremum"),
                               silence_level=3, **_rp_kw(p))
+    call_all(crp, ["distance_matrix"], p.get("metric", "supremum"))
     call_all(crp, RQA + ["cross_recurrence_rate", "balance"])
 
 
@@ -342,11 +344,16 @@ def e_jrp(p):
 
 def e_isrn(p):
     from pyunicorn.timeseries import InterSystemRecurrenceNetwork
-    x = arr((p["Lx"],), kind="sin")
-    y = arr((p["Ly"],), kind="ramp")
+    d = p.get("d")
+    x = arr((p["Lx"],) + ((d,) if d else ()), kind="sin")
+    y = arr((p["Ly"],) + ((d,) if d else ()), kind="ramp")
     mode = p.get("mode", "threshold")
     kw = {mode: (p.get("val", 1.0),) * 3}
-    net = InterSystemRecurrenceNetwork(x, y, silence_level=3, **kw)
+    if p.get("dim"):
+        kw.update(dim=p["dim"], tau=(p.get("tau", 1), p.get("tau2", 1)))
+    net = InterSystemRecurrenceNetwork(x, y, metric=p.get("metric",
+                                                          "supremum"),
+                                       silence_level=3, **kw)
     call_all(net, ["cross_recurrence_rate", "cross_global_clustering_xy",
                    "cross_global_clustering_yx", "cross_transitivity_xy",
                    "cross_transitivity_yx", "internal_recurrence_rates"])
